@@ -16,6 +16,11 @@ OP_BUDGET = 30000        # desper lines per top-level operation (liveness)
 
 def dec_id(x):
     """Scenario encoding of entity ids -> Python hashable."""
+    if isinstance(x, dict):
+        # ids of one type that cannot be ordered among themselves
+        if 'cx' in x:
+            return complex(*x['cx'])
+        return frozenset(x['fs'])
     if isinstance(x, list):
         return tuple(dec_id(i) for i in x)
     return x
@@ -47,6 +52,8 @@ class Actors:
             def on_remove(self, entity, world):
                 it.peek()
                 it.cb('life', self._label, 'on_remove', entity, world)
+                if getattr(it, 'clearing', False):
+                    it.gone_in_clear.append((self._label, self))
 
             def probe(self, token):
                 it.cb('probe', self._label, token)
@@ -145,6 +152,13 @@ class Actors:
                         lambda e, w, which=which: it.cb(
                             'life', self._label, which, e, w)))
             ns['__init__'] = __init__
+        if spec.get('fake_class') is not None and not spec.get('ctrl'):
+            # instances claim (through __class__) to be of another class:
+            # a component's type is type(component), whatever it claims
+            j = spec['fake_class']
+            A = self
+            ns['__class__'] = property(
+                lambda self: A.classes.get(j, type(self)))
         if spec.get('eq') == 'equal':       # value equality (a frozen
             ns['__eq__'] = lambda a, b: type(a) is type(b)      # dataclass)
             ns['__hash__'] = lambda a: 11
@@ -496,6 +510,13 @@ class Interp:
         tuple(w.entities)
         w.get(self.actors.Root)
         self.probes['callback_peeked_at_world'] += 1
+        for lab, o in getattr(self, 'gone_in_clear', ()):
+            # components the running clear() has notified already are
+            # detached: "registered exactly while attached"
+            if w.is_handler(o):
+                self.fail('C02', 'registered_not_attached', f'{lab} got its '
+                          f'on_remove from the running clear() but is still '
+                          f'a registered listener')
 
     def op_forget(self, op, start):
         """Nothing but the world (its queue of postponed callbacks, if any)
@@ -959,6 +980,34 @@ class Interp:
         return [j for q, j in self.procs
                 if issubclass(self.actors.pclasses[self.cfg['pinsts'][j]], T)]
 
+    def op_spam_add(self, op, start):
+        """n replacements of a processor of one private type (every
+        add_processor counts for whatever the world keeps per insertion),
+        then the ordinary history goes on."""
+        n = op[1]
+        if self.depth or not self.enabled:
+            return 'skip'
+        d = self.desper
+        if not hasattr(self, 'Spam'):
+            class Spam(d.Processor):
+                priority = 1
+
+                def process(self, dt=1):
+                    pass
+            self.Spam = Spam
+            self.spam = None
+        w, Spam = self.w, self.Spam
+        try:
+            with kernel.budget(60 * n + OP_BUDGET):
+                for _ in range(n):
+                    w.add_processor(Spam())
+                w.remove_processor(Spam)
+        except SimHang as e:
+            self.fail('C07', 'hang', f'{n} add_processor calls: {e}')
+        self.probes['many_add_processor_calls'] += 1
+        if n >= 2 ** 20:
+            self.probes['add_processor_calls>=2**20'] += 1
+
     def op_remove_proc(self, op, start):
         _, pc = op
         if self.depth:
@@ -1206,12 +1255,16 @@ class Interp:
         # the clear has not come to yet (same scripts as the deletion pass)
         self.reaping = set(self.ents) if was_enabled else set()
         self.life_ok = was_enabled
+        self.gone_in_clear = []
+        self.clearing = was_enabled
         try:
             self.call(lambda: self.w.clear(), owner=('C01', 'C02'),
                       what='clear')
         finally:
             self.life_ok = False
             self.reaping = set()
+            self.clearing = False
+            self.gone_in_clear = []
         if self.ents:
             self.routes.add('clear')
             self.probes['detach_route.clear'] += 1
@@ -1401,7 +1454,7 @@ class Interp:
         if getattr(self, 'order_unsure', False):
             got, want = sorted(got), sorted(want)
         if got != want:
-            self.fail('C07', 'processors_property',
+            self.fail(('C07', 'C06'), 'processors_property',
                       f'processors = {got}, expected {want} (priorities '
                       f'{[q for q, j in self.procs]})')
         for pc, T in [(-1, A.RunProc)] + sorted(A.pclasses.items()):
@@ -1534,7 +1587,8 @@ DECOS = [
 ]
 PDECOS = [None, {'names': ['on_add', 'on_remove']}, {'names': ['probe']},
           {'names': ['on_add']}, {'names': ['on_remove', 'probe']}]
-ID_POOL = [1, 2, 3, 4, 0, 'a', '', [1, 2], 5]
+ID_POOL = [1, 2, 3, 4, 0, 'a', '', [1, 2], 5, {'cx': [1, 2]}, {'cx': [0, 1]},
+           {'fs': [1]}, {'fs': [2]}, [1, 'a'], ['a', 1]]
 DTS = [0, 0.25, 0.5, 1, 2, 7]
 
 WEIGHTS = {
@@ -1553,7 +1607,7 @@ WEIGHTS = {
     'C06': dict(create=4, create_id=1, add=4, add_replace=1, remove=3,
                 delete=.7, delete_now=.7, touch=.2, process=.7, clear=.2,
                 disable=.1, enable=.2, probe=.1, add_proc=2, remove_proc=1.2,
-                defclass=1),
+                defclass=1, side_add=.3),
     'C07': dict(create=1, create_id=.2, add=.6, add_replace=.2, remove=.4,
                 delete=.3, delete_now=.2, touch=.1, process=3.5, clear=.4,
                 disable=.6, enable=.9, probe=.6, add_proc=5, remove_proc=1.6,
@@ -1611,6 +1665,8 @@ def gen_config(prop, rng):
             spec['eq'] = rng.choice(['equal', 'unhashable'])
         if rng.random() < .15:
             spec['virtual'] = True      # registered with an ABC
+        if i and rng.random() < .06:
+            spec['fake_class'] = rng.randrange(i)
         if not bases and handler_p and rng.random() < .2:
             spec['ctrl'] = True
         if bases and prop in ('C01', 'C06') and rng.random() < .15:
@@ -1780,7 +1836,11 @@ def gen_op(kind, sh, rng, cfg, state):
     live = list(sh.rows)
 
     def enc(eid):
-        return list(eid) if isinstance(eid, tuple) else eid
+        if isinstance(eid, complex):
+            return {'cx': [int(eid.real), int(eid.imag)]}
+        if isinstance(eid, frozenset):
+            return {'fs': sorted(eid)}
+        return [enc(x) for x in eid] if isinstance(eid, tuple) else eid
 
     def some_id(p_live=.8):
         if live and rng.random() < p_live:
@@ -1926,6 +1986,14 @@ def generate(prop, run_seed, tier='quick', tolerate=frozenset()):
         ops.append(['process', 1])
         sh.apply(ops[-1])
         n += len(ops)
+    if prop == 'C07':
+        r_spam = crng.random()
+        if r_spam < .01 or (tier == 'thorough' and r_spam < .010012):
+            # a long life: very many add_processor calls before the history
+            ops.append(['spam_add', 2 ** 20 + 3 if r_spam >= .01
+                        else crng.choice([300, 5000])])
+            sh.apply(ops[-1])
+            n += 1
     tries = 0
     while len(ops) < n and tries < n * 6:
         tries += 1
